@@ -12,6 +12,13 @@ NOTE_COMMON = ("Trusted base: go/packages + go/types type-check of /repo's worki
 
 # id -> (technique, level text, level note, design ref)
 CLAIMS = {
+    "C01": (
+        "non-interference argument over the call closure of FSM.applyRobustMessage (all registered handlers): effect classification of every range-over-map body (collect-then-sort with path-sensitive sort check, set building, per-iteration object, commutative flag, unique match by key), classification of every external callee (clock / randomness / environment / scheduler / zone-dependent time methods), who-writes of package variables and reply ids, absence of goroutines/channels/select and pointer formatting",
+        "A sufficient static condition decided for all entry histories at once: no source of nondeterminism (map iteration order, wall clock, time zone, randomness, environment, goroutine timing, mutable package state, address formatting) is reachable from the state-machine step; "
+        "if every obligation is discharged, two executions of the same entry sequence cannot differ, modulo the trusted classification of third-party callees (sorcix/irc, toml, protobuf, regexp, fmt) and the listed exceptions "
+        "(unique first-match loops justified by nickname uniqueness; snapshot field order, which reaches only map inserts).",
+        NOTE_COMMON,
+        "DESIGN.md section 3, C01"),
     "C15": (
         "who-constructs / who-writes closure of the delivered bytes (single producer using the library's truncating serializer, constant read from the dependency's source), taint def-use from request fields to proposed entries with a closed recogniser of cut-at-first sanitisers (byte sets evaluated with go/constant), constant scan, command well-formedness at every send site",
         "Partial (a sufficient condition): decides that every delivered line is produced by send() through Message.Bytes() (<= 510 bytes), that the store and the API hand the bytes on verbatim, "
